@@ -898,6 +898,11 @@ def main():
                     help="debug: only the first N cases of the plan")
     ap.add_argument("--grep", default="", help="debug: case name substring")
     ap.add_argument("--keep", action="store_true")
+    ap.add_argument("--only-pols", default="",
+                    help="debug: comma separated policy names")
+    ap.add_argument("--only-hosts", default="",
+                    help="debug: comma separated host counts")
+    ap.add_argument("--min-edges", type=int, default=0, help="debug")
     ap.add_argument("--mutant", default="",
                     help="demonstrate detection: apply this unified diff "
                          "(paths relative to the repo root, header-only "
@@ -928,6 +933,14 @@ def run_check(a, prop, tier, exe, workdir, deadline_at):
     plan = c19_plan(tier) if prop == "C19" else c18_plan(tier)
     if a.grep:
         plan = [p for p in plan if a.grep in case_name(p[2], p[0])]
+    if a.only_pols:
+        keep = set(a.only_pols.split(","))
+        plan = [p for p in plan if p[2]["polname"] in keep]
+    if a.only_hosts:
+        keep = set(int(x) for x in a.only_hosts.split(","))
+        plan = [p for p in plan if p[0] in keep]
+    if a.min_edges:
+        plan = [p for p in plan if len(p[2]["edges"]) >= a.min_edges]
     if a.limit:
         plan = plan[:a.limit]
     reps = a.reps or (2 if tier == "quick" else 3)
